@@ -49,7 +49,7 @@ def common_cfg(rng, cls):
         cfg["scaling"] = [[u, v, rng.choice(SCALES)] for (u, v) in edges if rng.random() < 0.5]
     # lengths (with or without constraints), subpath constraints, coverage
     if rng.random() < 0.3:
-        cfg["lengths"] = [[u, v, rng.choice(["1", "2", "3", "5", "1/2"])] for (u, v) in edges if rng.random() < 0.8]
+        cfg["lengths"] = [[u, v, rng.choice(["0", "1", "2", "3", "5", "1/2"])] for (u, v) in edges if rng.random() < 0.8]
     if rng.random() < 0.45:
         cfg["constraints"] = [[list(e) for e in c] for c in gen.subpaths(rng, nodes, edges, contiguous=rng.random() < 0.7)]
         r = rng.random()
@@ -57,7 +57,7 @@ def common_cfg(rng, cls):
             cfg["coverage"] = rng.choice(["1/2", "3/4", "1/4"])
         elif r < 0.75:
             if cfg["lengths"] is None:
-                cfg["lengths"] = [[u, v, rng.choice(["1", "2", "3", "5"])] for (u, v) in edges if rng.random() < 0.8]
+                cfg["lengths"] = [[u, v, rng.choice(["0", "1", "2", "3", "5"])] for (u, v) in edges if rng.random() < 0.8]
             cfg["coverage_length"] = rng.choice(["1", "1/2", "3/4"])
     # given weights (k = len(weights), allow_empty_paths forced)
     if rng.random() < 0.25:
